@@ -209,7 +209,8 @@ def _hs_case(rng, n, ver, key, conn, upg, hv, pr, ex, dec):
     data = ws.handshake(path=path, key=k, version=ver, subprotocols=pr, extensions=ex, extra=extra, upgrade=upg,
                         connection=conn, http_version=hv.encode())
     client = [["feed", data], ["settle"]]
-    return {"family": "hs.h1." + hv, "backends": ["asyncio", "trio"], "config": {"keep_alive_timeout": 5000}, "conn": {},
+    # (h11_pass_raw_headers: the header names reach the handshake as the client spelled them - Sec-WebSocket-Key, Upgrade ...)
+    return {"family": "hs.h1." + hv, "backends": ["asyncio", "trio"], "config": {"keep_alive_timeout": 5000, "h11_pass_raw_headers": rng.random() < 0.25}, "conn": {},
             "apps": apps, "client": client, "reactor": {"kind": "ws", "echo_close": True}, "truth": truth,
             "sched": {"seed": rng.randrange(1 << 30)}, "horizon": 50.0}
 
